@@ -39,7 +39,11 @@ import vlib
 
 HAND_FILES = ["Props/C15_model.v", "Props/C15_exec.v"]
 
-ITYPES = ["cell", "exterior_facet", "interior_facet", "vertex"]
+# an integral type added through the public registry (group_form_integrals loops over
+# ufl.measure.integral_types(), which must see it); registration is idempotent
+CUSTOM_TYPE = "verif_patch"
+ufl.measure.register_integral_type(CUSTOM_TYPE, "dvp")
+ITYPES = ["cell", "exterior_facet", "interior_facet", "vertex", "ridge", "custom", CUSTOM_TYPE]
 EST = "estimated_polynomial_degree"
 
 
@@ -129,6 +133,22 @@ def metadata_pool(rng):
         {"quadrature_rule": "custom", "quadrature_points": pts, "quadrature_weights": w3},
         {"mode": "fast", "flags": (True, None)},
     ]
+    # families of values that hold the same numbers in a different guise: same data in another
+    # shape / dtype / container.  They are DIFFERENT metadata (also under the pinned rendering)
+    base = np.array([0.25, 0.5, 0.125, 0.75])
+    families = [
+        [{"quadrature_rule": "custom", "quadrature_points": base.reshape(2, 2)},
+         {"quadrature_rule": "custom", "quadrature_points": base.reshape(4, 1)},
+         {"quadrature_rule": "custom", "quadrature_points": base.copy()},
+         {"quadrature_rule": "custom", "quadrature_points": base.reshape(1, 4)}],
+        [{"weights": np.array([1.0, 2.0])}, {"weights": np.array([1.0, 2.0], dtype=np.float32)},
+         {"weights": np.array([1, 2])}, {"weights": np.array([[1.0], [2.0]])}],
+        [{"quadrature_degree": 2, "scheme": "default"}, {"quadrature_degree": 2, "scheme": "Default"},
+         {"quadrature_degree": 2.0, "scheme": "default"}, {"quadrature_degree": 2}],
+        # (values of one key keep one kind - leaf or container - within a pool: ExprTupleKey compares the
+        #  canonical tuples with < and raises TypeError on str-vs-tuple when the integrands are equal)
+        [{"opts": {"a": 1}}, {"opts": {"a": 2}}, {"opts": {"a": 1, "b": 1}}, {"opts": {"b": 1}}],
+    ]
     colliding = [
         ({"quadrature_degree": 3}, {"quadrature_degree": "3"}),
         ({"quadrature_rule": "custom", "quadrature_points": pts, "quadrature_weights": w},
@@ -139,7 +159,7 @@ def metadata_pool(rng):
         ({"flag": None}, {"flag": "None"}),
         ({"flag": True}, {"flag": "True"}),
     ]
-    return plain, colliding
+    return plain, colliding, families
 
 
 # ----------------------------------------------------------------------------------------------
@@ -159,8 +179,11 @@ def gen_case(seed, idx, tier):
     gdim = rng.choice([2, 3])
     cells = [rng.choice(["triangle", "interval"] + (["tetrahedron"] if gdim == 3 else [])) for _ in range(ncell)]
     c.meshes = [ufl.Mesh(uflgen.LagrangeElement(uflgen.CELLS[cn], 1, (gdim,))) for cn in cells]
-    plain, colliding = metadata_pool(rng)
+    plain, colliding, families = metadata_pool(rng)
     pool = rng.sample(plain, rng.randint(1, 4))
+    if rng.random() < 0.3:
+        fam = rng.choice(families)
+        pool = rng.sample(fam, rng.randint(2, 3)) + pool[:2]
     c.with_collision = rng.random() < 0.35
     if c.with_collision:
         a, b = rng.choice(colliding)
@@ -183,7 +206,8 @@ def gen_case(seed, idx, tier):
     dirs = {}
     for k in range(n):
         mesh = rng.choice(c.meshes)
-        it = rng.choice(ITYPES[:3] if rng.random() < 0.85 else ITYPES)
+        rt = rng.random()
+        it = rng.choice(ITYPES[:3]) if rt < 0.7 else (rng.choice(ITYPES[3:6]) if rt < 0.85 else CUSTOM_TYPE)
         r = rng.random()
         if r < 0.40:
             sid = rng.randint(0, 3)
@@ -225,8 +249,7 @@ def gen_case(seed, idx, tier):
                                     ufl.SpatialCoordinate(mesh), dirs[key])
                 integrand = f1.integrals()[0].integrand()
         if rng.random() < 0.5 and not isinstance(sid, tuple) and c.route != "cd":
-            meas = ufl.Measure({"cell": "dx", "exterior_facet": "ds", "interior_facet": "dS", "vertex": "dP"}[it],
-                               domain=mesh)
+            meas = ufl.Measure(it, domain=mesh)
             integrals.extend((integrand * meas(sid, metadata=md)).integrals())
         else:
             integrals.append(Integral(integrand, it, mesh, sid, md, None))
